@@ -32,6 +32,7 @@ type raceOp struct {
 
 type raceEnv struct {
 	b    Backend
+	bu   Backend // same kind, TimeToLive = UnlimitedTTL
 	keys [][]byte
 	ctx  context.Context
 	fe   *cache.Failover
@@ -57,6 +58,15 @@ func backendOps() []raceOp {
 		{"Restore", func(e *raceEnv, i int) { _, _ = e.b.Restore(bytes.NewReader(e.buf.Bytes())) }},
 		{"Cleanup", func(e *raceEnv, i int) { e.b.Cleanup() }},
 		{"LoadStore", func(e *raceEnv, i int) { e.b.Store(e.keys[i%4], i+1); _, _ = e.b.Load(e.keys[i%4]) }},
+		// a second instance configured with UnlimitedTTL: per-call ttls maintain the janitor's "expirations were set" counter
+		{"UnlimitedWriteTTL", func(e *raceEnv, i int) { _ = e.bu.Write(cache.WithTTL(e.ctx, time.Hour, false), e.keys[i%6], i+1) }},
+		{"UnlimitedBatch", func(e *raceEnv, i int) {
+			if i%2 == 0 {
+				e.bu.ExpireAll(e.ctx)
+			} else {
+				e.bu.Cleanup()
+			}
+		}},
 	}
 }
 
@@ -101,6 +111,7 @@ func newRaceEnv(kind string, strategy int) *raceEnv {
 	keys := NewKeyTable()
 	e := &raceEnv{ctx: context.Background()}
 	e.b = NewBackend(BCfg{Kind: kind, TTL: time.Hour, Jitter: Rat{1, 10, 0.1}, Strategy: strategy, CSL: 3, EF: Rat{1, 2, 0.5}, DEA: time.Millisecond, Name: "race"}, keys)
+	e.bu = NewBackend(BCfg{Kind: kind, TTL: cache.UnlimitedTTL, Jitter: Rat{-1, 1, -1}, Strategy: strategy, DEA: time.Millisecond, Name: "race-unlimited"}, NewKeyTable())
 	for i := 0; i < 6; i++ {
 		e.keys = append(e.keys, []byte(fmt.Sprintf("race-key-%d", i)))
 	}
@@ -311,7 +322,7 @@ func classifyBySite(rep string) string {
 }
 
 func runRace(o Opts) *Result {
-	res := &Result{Rule: "every unordered pair (self-pairs included; quick tier: a seeded two thirds) of a 13-op backend catalogue on each of the three backends under the " +
+	res := &Result{Rule: "every unordered pair (self-pairs included; quick tier: a seeded two thirds) of a 15-op backend catalogue on each of the three backends under the " +
 		"default and the LFU strategy, and of a 12-op frontend catalogue (Failover, FailoverOf, InvalidationIndex, Invalidator, backend batch ops), 4 goroutines per pair, " +
 		"in child processes built with -race; a report is reduced to the two accessing functions of package cache; " +
 		"non-trivial = a child that completed all its pairs; distinct = distinct child configurations"}
